@@ -6,4 +6,70 @@ namespace Gen.C14
 
 def isLargeEnough (groupSize numVoters projectsCost budget : Rat) : Bool := (decide ((projectsCost * numVoters) ≤ (groupSize * budget)))
 
+def missing (inW : Bool) : Bool := (!inW)
+
+def noSurplus  : Rat := (0 : Rat)
+
+def coreSizeTest (large : Bool) : Bool := large
+
+def coreGroupNonEmpty (groupLen : Rat) : Bool := (decide (groupLen > (0 : Rat)))
+
+def coreVoterOk (satW surplus satT : Rat) : Bool := (decide ((satW + surplus) ≥ satT))
+
+def strongEJRApprovalFails (satW satT : Rat) : Bool := (decide (satW < satT))
+
+def ejrApprovalOk (satW surplus satT : Rat) : Bool := (decide ((satW + surplus) ≥ satT))
+
+def cardThresholdSummand (minScore : Rat) : Rat := minScore
+
+def strongEJRCardinalFails (satW threshold : Rat) : Bool := (decide (satW < threshold))
+
+def ejrCardinalOk (satW surplus threshold : Rat) : Bool := (decide ((satW + surplus) ≥ threshold))
+
+def pjrApprovalThreshold (satT : Rat) : Rat := satT
+
+def pjrApprovalGroupSat (satApproved surplus : Rat) : Rat := (satApproved + surplus)
+
+def pjrGroupApproves (someoneApproves : Bool) : Bool := someoneApproves
+
+def pjrApprovalFails (groupSat threshold : Rat) : Bool := (decide (groupSat < threshold))
+
+def pjrCardinalGroupSummand (maxScore : Rat) : Rat := maxScore
+
+def pjrCardinalFails (groupSat surplus threshold : Rat) : Bool := (decide ((groupSat + surplus) < threshold))
+
+def upToAnyEJRApproval (bound : Rat) : Rat := bound
+
+def upToOneEJRApproval (bound : Rat) : Rat := bound
+
+def upToAnyEJRCardinal (bound : Rat) : Rat := bound
+
+def upToOneEJRCardinal (bound : Rat) : Rat := bound
+
+def upToAnyPJRApproval (bound : Rat) : Rat := bound
+
+def upToOnePJRApproval (bound : Rat) : Rat := bound
+
+def upToAnyPJRCardinal (bound : Rat) : Rat := bound
+
+def upToOnePJRCardinal (bound : Rat) : Rat := bound
+
+def cohApprovalTooSmall (large : Bool) : Bool := (!large)
+
+def cohApprovalEmpty (numBallots numProjects : Rat) : Bool := ((decide (numBallots = (0 : Rat))) || (decide (numProjects = (0 : Rat))))
+
+def cohApprovalPairFails (inBallot : Bool) : Bool := (!inBallot)
+
+def cohCardinalTooSmall (large : Bool) : Bool := (!large)
+
+def cohCardinalEmpty (numBallots numProjects : Rat) : Bool := ((decide (numBallots = (0 : Rat))) || (decide (numProjects = (0 : Rat))))
+
+def cohCardinalPairFails (score alpha : Rat) : Bool := (decide (score < alpha))
+
+def cohGroupNonEmpty (groupLen : Rat) : Bool := (decide (groupLen > (0 : Rat)))
+
+def cohSetNonEmpty (setLen : Rat) : Bool := (decide (setLen > (0 : Rat)))
+
+def cohAlphaMin (minScore : Rat) : Rat := minScore
+
 end Gen.C14
